@@ -27,17 +27,23 @@ PROPERTY = "C12"
 LEVEL = "exploration"
 RULE = (
     "Cases are SchemaSpecs built only from parts the formats have a slot for: 0-4 columns (string keys incl. YAML/"
-    "quote-stressing text, regex keys; int keys only in wild mode), Index / 2-3 level MultiIndex (default MultiIndex "
-    "options), 19 dtype tags or none, built-in checks (comparisons, in_range, isin/notin, str_*, unique_values_eq) "
-    "with ignore_na/raise_warning/n_failure_cases, nullable/unique/coerce/required/regex, strict in {F,T,'filter'}, "
-    "ordered, joint unique, report_duplicates, unique_column_names, add_missing_columns, names/titles/descriptions. "
-    "Excluded by construction (no slot in the format): default, column report_duplicates, metadata, parsers, custom "
-    "checks, drop_invalid_rows, MultiIndex options, categories of a categorical dtype, tuple/set check arguments, NaN "
-    "check arguments, ge(min)+le(max) with min>max (documented ValueError). 'clean' cases (60 %) avoid every feature "
-    "with a recorded defect; 'wild' cases add them. Each case goes through YAML, JSON and script legs plus 3 probe "
-    "frames derived from the spec. Non-trivial: the schema has >=1 check with a non-default option or >=2 arguments, "
-    "or >=1 non-default flag/name/title/description, or an index. Distinct = hash of the canonical JSON case. The "
-    "'slots' family enumerates one minimal schema per slot value combination (finite list, complete)."
+    "quote-stressing text, regex keys), Index / 2-3 level MultiIndex (default MultiIndex options), 19 dtype tags or "
+    "none, built-in checks (comparisons, in_range, isin/notin, str_*) with ignore_na/raise_warning/n_failure_cases, "
+    "nullable/unique/coerce/required/regex, strict, ordered, joint unique, report_duplicates, unique_column_names, "
+    "add_missing_columns, names/titles/descriptions. Excluded by construction (no slot in the format): default, "
+    "column report_duplicates, metadata, parsers, custom checks, drop_invalid_rows, MultiIndex options, categories of "
+    "a categorical dtype, tuple/set check arguments, NaN check arguments, ge(min)+le(max) with min>max (documented "
+    "ValueError). 'clean' cases (60 %) avoid every feature with a recorded defect so all three legs are scored; "
+    "'wild' cases (40 %) switch on 1-3 of those features (strict='filter', schema title/description/dtype, frame-level "
+    "checks, Index.unique, unsafe characters in keys/names/titles, int keys, two checks of one kind, unique_values_eq, "
+    "sub-second / tz-aware / list-valued datetime check values, inf). Each case goes through the YAML, JSON and "
+    "script legs (emit, load, structural fingerprint equality with a fresh build, pandera ==, text fixpoint) plus "
+    "verdict comparison on 3 probe frames derived from the spec. Non-trivial: the schema has >=1 check with a "
+    "non-default option or >=2 arguments, or >=1 non-default flag/name/title/description, or an index. Distinct = hash "
+    "of the canonical JSON case. The 'slots' family enumerates one minimal schema per slot value combination "
+    "(all 32 column flag combinations, 16 index ones, 48 schema ones, every dtype tag on column and index, every "
+    "built-in check x option combination on column and index, in_range bounds on column/index/frame, permutations of "
+    "checks and columns): a finite list that is run completely (quick tier: reduced option grid)."
 )
 ASSUMPTIONS = [
     "the reference for every comparison is a fresh schema built from the same spec by the pandera constructors",
@@ -49,6 +55,21 @@ ASSUMPTIONS = [
 ]
 
 LEGS = ("yaml", "json", "script")
+
+
+def evidence_extra():
+    return {
+        "excluded_regions": [
+            "attributes without a slot in the format (default, column report_duplicates, metadata, parsers, custom "
+            "checks, drop_invalid_rows, MultiIndex-level strict/ordered/coerce/unique/name, dtype parameters such as "
+            "categories)",
+            "tuple/set/NaN check arguments; ge/le pairs with min > max (to_yaml documents a ValueError)",
+            "JSON leg for non-string column keys",
+            "text -> schema fuzzing of from_yaml/from_json on arbitrary documents (atheris target of the design) is "
+            "not built",
+        ],
+        "legs": list(LEGS),
+    }
 
 # ------------------------------------------------------------------------------------------------ io legs
 
@@ -632,8 +653,11 @@ def enum_slots(tier):
         yield case(_schema([_col(dtype=tag)]))
         yield case(_schema(index=[_lvl("ix", dtype=tag)]))
     # built-in checks x options x component kind
-    opt_grid = [dict(ignore_na=i, raise_warning=w, n_failure_cases=n)
-                for i, w, n in itertools.product([True, False], [False, True], [None, 2])]
+    if tier == "quick":  # each option alone + all together; the full 2x2x2 grid in the thorough tier
+        grid = [(True, False, None), (False, False, None), (True, True, None), (True, False, 2), (False, True, 2)]
+    else:
+        grid = list(itertools.product([True, False], [False, True], [None, 2]))
+    opt_grid = [dict(ignore_na=i, raise_warning=w, n_failure_cases=n) for i, w, n in grid]
     for cls, table in _SAMPLE_ARGS.items():
         for name, args in table.items():
             for opts in opt_grid:
@@ -683,9 +707,9 @@ def selftest():
 
 
 FAMILIES = [
-    Family("slots", evaluate, enumerate=enum_slots, shards_quick=6, shards_thorough=8, exhaustive=True,
+    Family("slots", evaluate, enumerate=enum_slots, shards_quick=5, shards_thorough=8, exhaustive=True,
            required_labels=["feat:index-unique", "feat:strict-filter", "check:in_range", "index=multi"]),
-    Family("roundtrip", evaluate, strategy=g.case_st, n_quick=110, n_thorough=3000, shards_quick=8, shards_thorough=16,
+    Family("roundtrip", evaluate, strategy=g.case_st, n_quick=100, n_thorough=3000, shards_quick=7, shards_thorough=16,
            required_labels=["mode=clean", "mode=wild", "legs_scored=3", "index=multi", "check-options-nondefault",
                             "feat:dup-check-names", "feat:frame-checks", "feat:index-unique", "feat:strict-filter"]),
 ]
